@@ -19,32 +19,32 @@
 (***************************************************************************)
 EXTENDS Integers, Sequences, TLC, Json, IOUtils
 
-VARIABLES l, rep, win, pos, nblk
+VARIABLES l, rep, win, pos, nblk, dlen
 Tr == ndJsonDeserialize(IOEnv.TRACE)
 Ev == Tr[l]
 Is(e) == l <= Len(Tr) /\ Ev.e = e /\ l' = l + 1
 RC == INSTANCE Repcodes WITH MaxOff <- 1, MaxLen <- 1, erep <- <<1, 4, 8>>, drep <- <<1, 4, 8>>, n <- 0, ok <- TRUE
 
-TInit == l = 1 /\ TLCSet(1, 0) /\ rep = <<1, 4, 8>> /\ win = 0 /\ pos = 0 /\ nblk = 0
-Keep == UNCHANGED <<rep, win, pos, nblk>>
+TInit == l = 1 /\ TLCSet(1, 0) /\ rep = <<1, 4, 8>> /\ win = 0 /\ pos = 0 /\ nblk = 0 /\ dlen = 0
+Keep == UNCHANGED <<rep, win, pos, nblk, dlen>>
 
 Frame == /\ Is("frame") /\ Keep
          /\ Ev.accepted => (Ev.bad = 0 /\ Ev.npaths >= 8)          \* C04: every path, exactly R's content
 DBlk == /\ Is("dblk") /\ Keep
         /\ (Ev.loc = 2) => Ev.litBig = 1                             \* split literal buffer (ZSTD_split) only for literals beyond the extra buffer
-        /\ (Ev.prefetch = 1) => (Ev.histBig = 1 /\ Ev.nseqBig = 1)   \* prefetching decoder: only with > 16 MiB of history and > 8 sequences (no cold dictionary here)
+        /\ (Ev.prefetch = 1) => ((Ev.histBig = 1 /\ Ev.nseqBig = 1) \/ Ev.dict = 1)   \* prefetching decoder: > 16 MiB of history and > 8 sequences, or a (cold) dictionary
         /\ Ev.longOff = 0                                            \* 64-bit build: no long-offset mode
-RFrame == /\ Is("rFrame") /\ rep' = <<1, 4, 8>> /\ win' = Ev.window /\ pos' = 0 /\ nblk' = 0
+RFrame == /\ Is("rFrame") /\ rep' = <<1, 4, 8>> /\ win' = Ev.window /\ pos' = 0 /\ nblk' = 0 /\ dlen' = Ev.dictLen
 RBlock == /\ Is("rBlock") /\ Ev.k = nblk /\ Ev.pos = pos
           /\ Ev.regen <= 131072 /\ Ev.regen <= win
-          /\ nblk' = nblk + 1 /\ pos' = pos + Ev.regen /\ UNCHANGED <<rep, win>>
+          /\ nblk' = nblk + 1 /\ pos' = pos + Ev.regen /\ UNCHANGED <<rep, win, dlen>>
 \* rSeq: pos = output position of the match, ov = offset_value, off = offset R used
 RSeq == /\ Is("rSeq")
         /\ LET d == RC!Dec(Ev.ov, rep, Ev.ll = 0) IN
            /\ Ev.off = d[1] /\ rep' = d[2]                            \* R resolves repeat offsets as the format model does
         /\ Ev.off >= 1 /\ Ev.ml >= 3
-        /\ IF Ev.pos > win THEN Ev.off <= win ELSE Ev.off <= Ev.pos   \* window rule
-        /\ UNCHANGED <<win, pos, nblk>>
+        /\ IF Ev.pos > win THEN Ev.off <= win ELSE Ev.off <= Ev.pos + dlen   \* window rule (a raw-content dictionary extends the history of the first window)
+        /\ UNCHANGED <<win, pos, nblk, dlen>>
 RFrameEnd == /\ Is("rFrameEnd") /\ Ev.fcsOK /\ Ev.size = pos /\ Ev.blocks = nblk /\ Keep
 Mut == /\ Is("mut") /\ Keep
        /\ Ev.over = 0            \* error or size <= capacity; pos <= size
